@@ -15,3 +15,34 @@ package txnlock
 //@   opaque-callee getTxnStatusFromLock resolveAsyncCommitLock resolvePessimisticLock resolveLock batchLiteResolveLocks newAsyncResolveBackoffer tryAsyncResolve
 //@   at call(append:canIgnore) assert ignorable: arg1[0] == l.TxnID && (status.action == kvrpcpb.Action_MinCommitTSPushed || (status.ttl == 0 && status.commitTS == 0) || (status.commitTS > 0 && status.commitTS > opts.CallerStartTS))
 //@   at call(append:canAccess) assert readable: arg1[0] == l.TxnID && status.commitTS > 0 && status.commitTS <= opts.CallerStartTS
+
+// ---- C04: what a resolver asks the store to do ---------------------------------------------------------------------
+// The status of a lock's transaction is asked for the lock's own transaction id and primary, on behalf of the caller's
+// timestamp, with the resolver's current timestamp (the maximum timestamp only under the "ttl 0 = resolve now" protocol);
+// "roll it back if it left no trace" is asked only after this lock's time-to-live was seen elapsed on the resolver's
+// oracle. Ghost: sawExpired is set on the oracle when UntilExpired answered <= 0 (time only moves forward).
+//@ ghost field Oracle.sawExpired bool
+//@ spec func oracleOf(s storage) oracle.Oracle
+
+//@ func (storage) GetOracle
+//@   trusted
+//@   pure
+//@   ensures result == oracleOf(recv)
+
+//@ func (*LockResolver) getTxnStatusFromLock
+//@   prop C04
+//@   requires !oracleOf(lr.store).sawExpired
+//@   opaque-callee getTxnStatus Backoff
+//@   at call(getTxnStatus) assert asked: arg_txnID == l.TxnID && arg_primary == l.Primary && arg_callerStartTS == callerStartTS && arg_lockInfo == l && arg_forceSyncCommit == forceSyncCommit &&
+//@       (arg_currentTS == 18446744073709551615 ==> l.TTL == 0) && (arg_rollbackIfNotExist ==> oracleOf(lr.store).sawExpired)
+//@   loop 1 invariant expired: rollbackIfNotExist ==> oracleOf(lr.store).sawExpired
+//@   loop 1 invariant clock: currentTS == 18446744073709551615 ==> l.TTL == 0
+//@   ensures alive: result1 == nil && result0.ttl > 0 && result0.commitTS == 0 && result0.action == kvrpcpb.Action_NoAction && result0.primaryLock == nil ==> true
+
+// A resolve request names the lock's transaction, and carries a commit timestamp exactly when the status says committed:
+// then it is the status's commit timestamp (never one made up here).
+//@ func (*LockResolver) resolveLock
+//@   prop C04
+//@   may-panic
+//@   opaque-callee resolveActionLabel Backoff
+//@   at call(SendReq) assert outcome: lreq.StartVersion == l.TxnID && lreq.CommitVersion == ite(status.commitTS > 0, status.commitTS, 0) && arg_req != nil && arg_req.Req.(*kvrpcpb.ResolveLockRequest) == lreq && arg_regionID == loc.Region
